@@ -284,7 +284,7 @@ Definition in01 (l : list Qc) : bool := forallb (fun p => qlt 0 p && qlt p 1) l.
 Definition ne_valid (c : wcfg) (b : wbatch) : bool :=
   rows_ok c (b_x b) && rows_ok c (b_y b) && rows_ok c (b_w b)
   && forallb (fun t => same_len (row t (b_x b)) (row t (b_y b)) && same_len (row t (b_x b)) (row t (b_w b))
-                       && in01 (row t (b_x b)) && pos (row t (b_w b))) (seq 0 (cT c)).
+                       && in01 (row t (b_x b)) && nonneg (row t (b_w b))) (seq 0 (cT c)).
 (* -w (t ln p + (1-t) ln (1-p)) *)
 Fixpoint ne_terms (ps ts ws : list Qc) : sym :=
   match ps, ts, ws with
@@ -302,7 +302,8 @@ Definition wne (fixed : variant) : Metric := win_metric ne_spec fixed.
 
 Definition sym_val (e : sym) : val :=
   fold_right (fun t acc => radd (rmul (vq (fst t)) (rln (vq (snd t)))) acc) (vq 0) e.
-(* (cross_entropy / num_examples) / baseline,  baseline = -r ln r - (1-r) ln(1-r),
+(* a window (or lifetime) whose weights are all zero: 0/0 = NaN for that task, as the code computes.
+   (cross_entropy / num_examples) / baseline,  baseline = -r ln r - (1-r) ln(1-r),
    r = clamp(num_positive / num_examples, eps, 1 - eps) *)
 Definition ne_val (s : ne3) : val :=
   if qeq (ne_n s) 0 then VT "nan" [] else
